@@ -124,6 +124,10 @@ class SemHarness:
                 self.text.append(c); self.joints.append(joint)
             else:
                 txt = LIT_TEXT.get(kn) or fam.text_of.get(k)
+                if kn in ("PRAGMA", "ANNOTATION"):
+                    # line-oriented tokens: with a body, without one, and the `#pragma` spelling
+                    alts = {"PRAGMA": ["pragma x", "pragma", "#pragma x y", "#pragma"], "ANNOTATION": ["@ann x", "@ann"]}[kn]
+                    txt = ex.choose([(a_, z3.BoolVal(True)) for a_ in alts])
                 if txt is None:
                     raise Unsupported("no spelling for " + kn)
                 src.tok(kn, txt, joint)
@@ -166,7 +170,8 @@ class SemHarness:
         out = [t + " " for _, t in PREAMBLE]
         for t, j in zip(self.text, self.joints):
             out.append((chr(model.get(t.e.decl().name(), ord("a"))) if isinstance(t, SV) else t) + ("" if j else " "))
-        return "".join(out).strip().replace("pragma x", "pragma x\n").replace("@ann x", "@ann x\n")
+        txt = "".join(out).strip()
+        return re.sub(r"((?:#?pragma|@ann)(?: x)?(?: y)?) ", r"\1\n", txt + " ").strip(" ")
 
     def describe(self, ex, outcome, detail):
         if outcome == "ok":
